@@ -32,4 +32,5 @@ InvRel == LawRelConsistent(t) /\ LawTreeHeight(t)
 InvTyped == LawTyped(t)
 InvPrefix == LawPrefix(t)
 InvFilter == LawFilter(t)
+InvExport == LawExportRoot(t)
 =============================================================================
